@@ -1217,8 +1217,11 @@ class SetGen:
                                                                  ["container", "b", [["uses", "%s_%d" % (stem, i - 1), None]]]]])
             u.body.append(["container", stem, [["uses", "%s_%d" % (stem, depth), None]]])
         if rnd.random() < 0.1:                       # deep nesting (far below any stack limit)
-            depth = rnd.choice([30, 100, 300, 800 if self.big else 400])
+            # Entry.Print is cubic in the nesting depth and Path quadratic: a few hundred levels keep a case well below a second
+            depth = rnd.choice([30, 100, 300, 500 if self.big else 400])
             kw = rnd.choice(["container", "container", "list", "choice", "grouping", "case-chain"])
+            if kw == "case-chain":
+                depth //= 2
             self.dist["gadget:deep-%s:%d" % (kw, depth)] += 1
             node = leaf("bottom")
             for i in range(depth):
